@@ -1,6 +1,7 @@
 #define _POSIX_C_SOURCE 200809L  /* For mkstemp/mkdtemp */
 
 #include "nanolang.h"
+#include <limits.h>
 #include "runtime/list_int.h"
 #include "runtime/list_string.h"
 #include "runtime/list_token.h"
@@ -4378,7 +4379,9 @@ static Value eval_statement(ASTNode *stmt, Environment *env) {
             Value cond = eval_expression(stmt->as.assert.condition, env);
             if (!is_truthy(cond)) {
                 if (g_in_shadow_tests) {
-                    g_shadow_current_fail_count++;
+                    if (g_shadow_current_fail_count < INT_MAX) {
+                        g_shadow_current_fail_count++;  /* saturate: a wrapped count reads as "no failure" */
+                    }
                     if (g_shadow_current_first_line == 0) {
                         g_shadow_current_first_line = stmt->line;
                         g_shadow_current_first_column = stmt->column;
